@@ -27,7 +27,7 @@ for nm in ('with', 'without'):
     ver[f'demo_{nm}_change_tail'] = p.read_text()[-600:] if p.exists() else None
 ts = sd / f'verify{k}.tests.summary'
 meta = {
-    'id': f'{pid}-{sid}', 'wave': 2 if sid > 2 else 1, 'property': pid, 'summary': m.get('summary'), 'needs_to_manifest': m.get('needs'),
+    'id': f'{pid}-{sid}', 'wave': (sid + 1) // 2, 'property': pid, 'summary': m.get('summary'), 'needs_to_manifest': m.get('needs'),
     'files': m.get('files'), 'demonstration': sorted(demos),
     'author': 'independent sub-agent given only the property text and a scratch worktree (nothing from /verif)',
     'author_verification': m.get('verified'),
